@@ -56,6 +56,14 @@ class BaseCurve(Intface_BaseCurve):
         for poi, qoi in zip(selfcopy.ctrlpoints, othercopy.ctrlpoints):
             if norm(poi - qoi) > 1e-9:
                 return False
+        if selfcopy.weights is None and othercopy.weights is None:
+            return True
+        # Same function: the weights are proportional
+        weightsa = selfcopy.weights if selfcopy.weights else [1] * selfcopy.npts
+        weightsb = othercopy.weights if othercopy.weights else [1] * othercopy.npts
+        for wai, wbi in zip(weightsa, weightsb):
+            if abs(wai * weightsb[0] - wbi * weightsa[0]) > 1e-9:
+                return False
         return True
 
     def __ne__(self, obj: object):
